@@ -682,9 +682,15 @@ class CSSStyleSheet(css_parser.stylesheets.StyleSheet):
                             index = len(self._cssRules) - i
                             break
                 else:
-                    # find first point to insert
+                    # find first point to insert, but never in front of
+                    # an @charset or @import (e.g. after a leading comment)
+                    start = 0
                     for i, r in enumerate(self._cssRules):
-                        if r.type in (r.VARIABLES_RULE, r.MEDIA_RULE,
+                        if r.type in (r.CHARSET_RULE, r.IMPORT_RULE):
+                            start = i + 1
+                    for i, r in enumerate(self._cssRules):
+                        if i >= start and \
+                           r.type in (r.VARIABLES_RULE, r.MEDIA_RULE,
                                       r.PAGE_RULE, r.STYLE_RULE,
                                       r.FONT_FACE_RULE, r.UNKNOWN_RULE,
                                       r.COMMENT):
@@ -732,9 +738,16 @@ class CSSStyleSheet(css_parser.stylesheets.StyleSheet):
                             index = len(self._cssRules) - i
                             break
                 else:
-                    # find first point to insert
+                    # find first point to insert, but never in front of
+                    # an @charset, @import or @namespace
+                    start = 0
                     for i, r in enumerate(self._cssRules):
-                        if r.type in (r.MEDIA_RULE,
+                        if r.type in (r.CHARSET_RULE, r.IMPORT_RULE,
+                                      r.NAMESPACE_RULE):
+                            start = i + 1
+                    for i, r in enumerate(self._cssRules):
+                        if i >= start and \
+                           r.type in (r.MEDIA_RULE,
                                       r.PAGE_RULE,
                                       r.STYLE_RULE,
                                       r.FONT_FACE_RULE,
